@@ -33,6 +33,10 @@ def main():
     mod = importlib.import_module('c' + prop[1:].lower())
     ctx = common.Ctx(prop, a.tier, a.seed)
     if a.replay:
+        if not hasattr(mod, 'replay'):
+            print('replay: %s has no dedicated replayer; the replay file holds the failing case (key, inputs) in JSON:' % prop)
+            print(open(a.replay).read()[:4000])
+            return 0
         return mod.replay(ctx, a.replay)
     try:
         with common.BuildLock():
@@ -44,6 +48,13 @@ def main():
         common.source_audit(ctx, mod.audit_files())
         if build_ok:
             common.axiom_audit(ctx, mod.MODULES[0], 'TamocV.Props.' + prop)
+            # the theorem inventory is pinned: a property theorem that disappears (or is renamed away) is a broken obligation
+            pin = os.path.join(common.VERIF, 'harness', 'theorems', prop + '.txt')
+            if os.path.exists(pin):
+                want = set(open(pin).read().split())
+                have = set(t.split('.')[-1] for t in ctx.theorems)
+                ctx.oblige('pinned theorem inventory of %s (%d names)' % (prop, len(want)), want <= have,
+                           'missing: %r' % sorted(want - have))
             if ctx.thorough and getattr(mod, 'LEANCHECKER', True):
                 p = subprocess.run(['lake', 'env', 'leanchecker', mod.MODULES[0]], cwd=common.LEAN,
                                    stdout=subprocess.PIPE, stderr=subprocess.STDOUT, text=True, timeout=3000)
